@@ -37,7 +37,7 @@ def run(tier):
     c.assumptions += [
         "the reference codec (harness/src/refcodec.rs, refvmess.rs) is an independent implementation written offline from SIP004/SIP007, SIP022/SIP023, the VMess AEAD format of v2ray-core and the Trojan protocol; bit-exact KDFs and ciphers are its business, not TLC's",
         "self-consistency only: VMess authenticated-length key/IV in the response direction (request key/IV, believed to match v2ray) and the upper bound of a VMess chunk (16 384)",
-        "multi-hop identity headers (more than one iPSK) are not generated",
+        "identity-key chains (two and three iPSKs, SIP023) are generated for the TCP client and judged header by header by the reference; the UDP client with more than one iPSK is not",
     ]
     return c.finish()
 
